@@ -9,6 +9,7 @@ from props import bivlib as B
 GEN_TARGETS = ('Bivariate',)
 DRIVER_MAIN = 'Main/Biv.lean'
 DRIVER_TARGETS = ['CopVerif.Driver.Biv']
+ALWAYS_SEARCH = True
 RULE = ('translation validation: generated Lean definitions (cdf, generator) evaluated at Float vs the real '
         'methods on theta grid + random theta in the |tau|<=0.8 ranges, batches of 0..64 rows drawn from the '
         'boundary set {0,1e-12,1e-4,.5,1-1e-4,1-1e-12,1} x random interior points, shortcut-triggering '
